@@ -56,4 +56,19 @@ PROPS = {
   'explanation': 'C04_find_tile_spec and C04_walk(_server) hold for every well-formed tree and every id < 2^63; the loop bounds of both Go walks are regenerated from the source; '
                  'server and CLI responses are compared with the model and with the generator ground truth.',
  },
+ 'C05': {
+  'uses_generated': True,
+  'rule': 'buildRootsLeaves with leaf sizes 1..40 on lists whose length is an exact multiple / leaves a short tail / is arbitrary; optimizeDirectories on regular and '
+          'incompressible lists of 0..20000 (quick) / ..10^6 (thorough) entries at the sizes where the flat-root rule and the leaf-size steps change, budgets 16257/2000/40; '
+          'NoCompression results compared byte-exactly (length+md5 of root and leaves) with the model, gzip results checked by the independent reader; badly compressing lists '
+          'searched so that the flat gzip root lands within +-100 bytes of the budget. Non-trivial: more entries than one leaf holds; distinct by case line',
+  'trusted_base': [GZIP + '; for the theorems gzip is any serializer with a round trip',
+                   'Flocq (float32 leaf-size sequence): the literal sequence of coq/Model/DirBuild.v is proved equal to the Flocq computation (Proofs/DirBuildF32.v, depends on the '
+                   'standard-library real-number axioms through Flocq); that float32(len)/3500 < 4096 for every len < 14,336,000 is checked at the boundary and by the harness, monotonicity of float32 division is not proved'],
+  'assumptions': ['a root directory with a single pointer fits the budget (true for every budget >= 64 bytes; below it the Go loop itself never terminates)',
+                  'each serialized leaf is shorter than 2^32 bytes (Go truncates the pointer length to uint32)'],
+  'explanation': 'C05_root_fits/C05_within_16k/C05_structure hold for every entry list, serializer and leaf-size sequence; C05_terminates for fewer than 14,336,000 entries; '
+                 'the budgets and the 16384-byte first fetch are regenerated from convert.go/extract.go/server.go.',
+  'allowed_axioms': [],
+ },
 }
